@@ -576,6 +576,11 @@ func (k Keeper) BorrowAsset(ctx sdk.Context, addr string, lendID, pairID uint64,
 	if AmountIn.Denom != cAsset.Denom {
 		return types.ErrBadOfferCoinType
 	}
+	// the pair's collateral asset must be the asset of the lend position the borrow hangs on:
+	// the pledged cTokens are valued at the lend asset's price and booked against that position
+	if pair.AssetIn != lendPos.AssetID {
+		return types.ErrorPairNotFound
+	}
 
 	minUSDVal, _ := sdk.NewDecFromStr(types.DollarOneValue)
 	loanValue, err := k.Market.CalcAssetPrice(ctx, pair.AssetOut, loan.Amount)
